@@ -133,6 +133,9 @@ void harness(void)
 	ASSUME(in.fd >= 28 && in.fd <= 30 && in.fH >= 0 && in.fH < 24 && in.fM >= 0 && in.fM < 60 && in.fS >= 0 && in.fS < 60);
 	ASSUME(in.td >= 28 && in.td <= 30 && in.tH >= 0 && in.tH < 24 && in.tM >= 0 && in.tM < 60 && in.tS >= 0 && in.tS < 60);
 	ASSUME(!(in.fd == 29 && in.fH == 2) && !(in.td == 29 && in.tH == 2));
+# if defined WHOLEHOURS
+	ASSUME(in.tM == in.fM && in.tS == in.fS);
+# endif
 	const long long want = ((in.td - in.fd) * 24 + (in.tH - berlin_offh(in.td, in.tH)) - (in.fH - berlin_offh(in.fd, in.fH))) * 3600 + (in.tM - in.fM) * 60 + (in.tS - in.fS);
 	ASSUME(want > 0);
 # if defined VERIF_CBMC
